@@ -277,6 +277,8 @@ class Interp:
                 return {"True": True, "False": False, "None": None}[e.id]
             if e.id in TYPES:
                 return TYPES[e.id]
+            if e.id in ("repr", "str", "len", "abs", "id", "ord"):
+                return PURE[e.id]  # a builtin passed as a value (sort keys)
             raise Undecided(f"no representative for `{e.id}`")
         if isinstance(e, ast.Attribute):
             if t in CONSTS:
